@@ -257,7 +257,13 @@ class Flow:
 
 
 def tau_points(T, cuts):
-    return [0.0] + [c * T for c in cuts] + [T]
+    """Partition points; cuts closer than 1e-3*T to their predecessor are dropped (an
+    update needs an interval of positive length in floating point)."""
+    pts = [0.0]
+    for c in sorted(cuts):
+        if c * T - pts[-1] >= 1e-3 * T and T - c * T >= 1e-3 * T:
+            pts.append(c * T)
+    return pts + [T]
 
 
 SOLVER_ERRORS = (_err.IterationError,)
@@ -300,3 +306,50 @@ def validity(A, f, n, bound, what):
     if np.isfinite(bound) and det.min() <= 0:
         raise Violation(f"{what}: orientation with non-positive determinant {det.min():.3e}")
     return dev
+
+
+class GbsRecorder:
+    """Observe pydrex.utils.apply_gbs (public module attribute looked up at call time by
+    minerals.py) without changing its behaviour: records copies of inputs and outputs."""
+
+    def __init__(self, keep="last"):
+        self.calls = []
+        self.keep = keep
+        self.min_margin = np.inf  # smallest relative distance of a pre-floor fraction to the threshold
+
+    def __enter__(self):
+        from pydrex import utils as _utils
+
+        self._utils = _utils
+        self._orig = _utils.apply_gbs
+        rec = self
+
+        def wrapper(orientations, fractions, gbs_threshold, orientations_prev, n_grains):
+            o_in = orientations.copy()
+            f_in = fractions.copy()
+            p_in = orientations_prev.copy()
+            thr = gbs_threshold / n_grains
+            if thr > 0:
+                rec.min_margin = min(rec.min_margin, float(np.abs(f_in - thr).min() / thr))
+            out = rec._orig(orientations, fractions, gbs_threshold, orientations_prev, n_grains)
+            entry = {
+                "o_in": o_in,
+                "f_in": f_in,
+                "prev": p_in,
+                "chi": gbs_threshold,
+                "n": n_grains,
+                "o_out": out[0].copy(),
+                "f_out": out[1].copy(),
+            }
+            if rec.keep == "last":
+                rec.calls[:] = [entry]
+            else:
+                rec.calls.append(entry)
+            return out
+
+        _utils.apply_gbs = wrapper
+        return self
+
+    def __exit__(self, *exc):
+        self._utils.apply_gbs = self._orig
+        return False
